@@ -9,18 +9,9 @@ import numpy as np
 from vlib import gen, leanrun, qgates
 from vlib.driver import gi_tokens, parse_gi, run_driver
 from vlib.symtrace import S, BranchOnSymbol, Untranslatable, evaluate, matrix_trees
-from vlib.proofs import build_and_audit
+from vlib.proofs import build_and_audit, registry
 
 PROP = "C01"
-THEOREMS = [
-    "QV.Props.C01.T01_execute_nil",
-    "QV.Props.C01.T01_execute_cons",
-    "QV.Props.C01.T01_execute_fold",
-    "QV.Props.C01.T01_execute_append",
-    "QV.Props.C01.T01_apply_uncontrolled",
-    "QV.Props.C01.T01_apply_control_off",
-    "QV.Props.C01.T01_apply_control_on",
-]
 
 # classes whose matrix is outside the symbolic fragment (reason recorded in evidence)
 OUTSIDE = {
@@ -352,9 +343,10 @@ def exec_search(ctx):
 
 
 def run(ctx):
+    MODULES, THEOREMS = registry(PROP)
     ctx.theorems = THEOREMS
     traced = trace_tables(ctx)
-    build_and_audit(ctx, PROP, ["QV.Props.C01"], THEOREMS, gen_obs=True)
+    build_and_audit(ctx, PROP, MODULES, THEOREMS, gen_obs=True)
     exec_correspondence(ctx)
     table_search(ctx, traced)
     exec_search(ctx)
